@@ -54,11 +54,11 @@ fn res_class(r: &RunRes) -> &'static str {
     }
 }
 
-/// All outputs agree except for f32 elements that differ at rounding level
-/// (|a-b| ≤ 2^-18 · max(largest magnitude in that output, `hint`), `hint` = 8 · product of the
-/// largest input magnitudes, which bounds the partial sums of a product-accumulate kernel even
-/// when the terms cancel): a different summation order, not a different element being read.
-fn rounding_only(a: &[Canon], b: &[Canon], hint: f32) -> bool {
+/// All outputs agree except for f32 elements that differ at rounding level, *relative to the
+/// output*: every differing pair satisfies `|p − q| ≤ 2^-10 · max(|p|, |q|) + 2^-20 · M`, where `M`
+/// is the largest magnitude in that output tensor (the second term only covers elements that
+/// nearly cancel).  A different summation order, not a different element being read.
+fn rounding_only(a: &[Canon], b: &[Canon], _hint: f32) -> bool {
     if a.len() != b.len() {
         return false;
     }
@@ -74,12 +74,13 @@ fn rounding_only(a: &[Canon], b: &[Canon], hint: f32) -> bool {
         }
         let fx: Vec<f32> = x.bits.iter().map(|&b| f32::from_bits(b)).collect();
         let fy: Vec<f32> = y.bits.iter().map(|&b| f32::from_bits(b)).collect();
-        let scale = fx.iter().chain(&fy).filter(|v| v.is_finite()).fold(hint.max(f32::MIN_POSITIVE), |m, v| m.max(v.abs()));
+        let m = fx.iter().chain(&fy).filter(|v| v.is_finite()).fold(0f32, |m, v| m.max(v.abs()));
         for (p, q) in fx.iter().zip(&fy) {
             if p.to_bits() == q.to_bits() {
                 continue;
             }
-            if !(p.is_finite() && q.is_finite()) || (p - q).abs() > scale / 262144.0 {
+            let tol = p.abs().max(q.abs()) / 1024.0 + m / 1_048_576.0;
+            if !(p.is_finite() && q.is_finite()) || (p - q).abs() > tol {
                 return false;
             }
         }
@@ -293,7 +294,12 @@ fn generic_case(cx: &mut Ctx, name: &'static str, case_seed: u64) {
             eprintln!("  FAIL {f}");
         }
     }
+    // every failing sub-check of the case is reported on its own line (the request repeated with a
+    // `fail#k` suffix), so that a known finding matching one of them cannot hide the others
     cx.out.case(&req, &ans, fails.first().map(|s| s.as_str()), matches!(base, Ok(Ok(_))));
+    for (k, f) in fails.iter().enumerate().skip(1) {
+        cx.out.case(&format!("{req} fail#{}", k + 1), &ans, Some(f.as_str()), false);
+    }
 }
 
 fn shp(s: &[usize]) -> String {
